@@ -1607,6 +1607,7 @@ pub fn run(args: &Args) -> Shard {
             "estimate" => crate::conc2::run_estimate(focus, seed, index),
             "release" => crate::conc2::run_release(focus, seed, index),
             "fanout" => crate::conc2::run_fanout(focus, seed, index),
+            "idle" => crate::conc2::run_idle(focus, seed, index),
             "ack-stats" => crate::conc2::run_ack_stats(focus, seed, index),
             "slow-tick" => crate::conc2::run_slow_tick(focus, seed, index),
             other => { eprintln!("unknown scenario {}", other); std::process::exit(2); }
